@@ -438,6 +438,13 @@ func sigOf(c Choice, n int, path uint64) uint32 {
 
 // Run executes the schedule: replay the prefix, then choice 0 at every point.
 func (w *World) Run() {
+	w.run()
+	// everything the tasks did before their last park happens-before what the
+	// harness reads after the run (race mode)
+	RaceAcquire(unsafe.Pointer(&abortObj))
+}
+
+func (w *World) run() {
 	w.settle()
 	for {
 		if !w.requiredLeft() {
